@@ -1213,6 +1213,8 @@ class Interp:
                     if ret != "push":
                         raise EngineError("nested ret modes")
                     ret = r.ret
+                    if ret == "discard" and stack_cut is not None:
+                        ret = ("const", None)      # reached from a CALL instruction: its result (None) is expected on the stack
                 continue
             if ret == "negate":
                 return self.py_not(W, r)
